@@ -103,7 +103,21 @@ func runAstdiff(cases []Case, outDir string) {
 				next := snap.Diff(fout, rec)
 				next.VerifDump(&to)
 				id := fmt.Sprintf("%s.%d", c.ID, step)
-				fmt.Fprintf(cw, "(case %s astdiff (from %s) (to %s))\n", id, from.String(), to.String())
+				groups := ""
+				if step == 0 {
+					// every comment group of the file is handed to astdiff.Before through the comment map: the first
+					// snapshot must hold each of them at some node
+					var gb strings.Builder
+					gb.WriteString(" (groups")
+					for _, g := range f.Comments {
+						if len(g.List) > 0 {
+							fmt.Fprintf(&gb, " %d", int(g.Pos()))
+						}
+					}
+					gb.WriteString(")")
+					groups = gb.String()
+				}
+				fmt.Fprintf(cw, "(case %s astdiff (from %s) (to %s)%s)\n", id, from.String(), to.String(), groups)
 				calls := rec.calls
 				sort.SliceStable(calls, func(i, j int) bool { return calls[i][0] < calls[j][0] })
 				var sb strings.Builder
